@@ -44,15 +44,22 @@ static Case decode(Tape& t)
         c.lower0 = static_cast<int>(t.below(3));
         int nsig = 1 + static_cast<int>(t.below(6));    // signalled lower limits lower0+1 .. lower0+nsig
         c.sl.resize(static_cast<std::size_t>(nth));
-        // thread 0 signals increasing limits (never blocks)
-        for (int v = 1; v <= nsig; ++v) c.sl[0].push_back(-(c.lower0 + v));
+        // thread 0 signals the limits lower0+1 .. lower0+nsig in a generated order (never blocks): completions of
+        // work items arrive out of order, the window must only ever move forward
+        {
+            std::vector<int> vals;
+            for (int v = 1; v <= nsig; ++v) vals.push_back(c.lower0 + v);
+            for (int i = nsig - 1; i > 0; --i) std::swap(vals[static_cast<std::size_t>(i)], vals[t.below(static_cast<std::uint32_t>(i + 1))]);
+            for (int v : vals) c.sl[0].push_back(-v);
+            if (t.chance(1, 3)) c.sl[0].push_back(-(c.lower0 + 1));    // a stale, repeated signal at the end
+        }
         int maxu = c.lower0 + nsig + c.max_diff;    // every wait(u<=maxu) is eventually satisfiable
         for (int i = 1; i < nth; ++i)
         {
             int n = 1 + static_cast<int>(t.below(4));
             for (int k = 0; k < n; ++k)
             {
-                if (t.chance(1, 5)) c.sl[static_cast<std::size_t>(i)].push_back(0);
+                if (t.chance(1, 5)) c.sl[static_cast<std::size_t>(i)].push_back(t.chance(1, 2) ? 0 : 1000 + 1 + static_cast<int>(t.below(static_cast<std::uint32_t>(maxu))));    // try_wait(1) / try_wait(u)
                 else c.sl[static_cast<std::size_t>(i)].push_back(1 + static_cast<int>(t.below(static_cast<std::uint32_t>(maxu))));
             }
         }
@@ -106,7 +113,8 @@ static std::string describe(tape_t const& tape)
             os << (i ? ", " : "") << "\"";
             for (int v : c.sl[i])
             {
-                if (v > 0) os << "wait(" << v << ") ";
+                if (v > 1000) os << "try_wait(" << v - 1000 << ") ";
+                else if (v > 0) os << "wait(" << v << ") ";
                 else if (v < 0) os << "signal(" << -v << ") ";
                 else os << "try_wait(1) ";
             }
@@ -244,7 +252,7 @@ static Outcome run_sliding(Case const& c, Tape& t)
 {
     vt::Sched s;
     pika::sliding_semaphore sem(c.max_diff, c.lower0);
-    long long max_signal_started = c.lower0, blocked = 0;
+    long long max_signal_started = c.lower0, max_signal_done = c.lower0, blocked = 0, out_of_order = 0;
     std::string fail;
     for (std::size_t i = 0; i < c.sl.size(); ++i)
     {
@@ -253,8 +261,21 @@ static Outcome run_sliding(Case const& c, Tape& t)
             {
                 if (v < 0)
                 {
+                    if (-v < max_signal_started) ++out_of_order;
                     max_signal_started = std::max<long long>(max_signal_started, -v);
                     sem.signal(-v);
+                    max_signal_done = std::max<long long>(max_signal_done, -v);
+                }
+                else if (v > 1000)
+                {
+                    int u = v - 1000;
+                    long long done_before = max_signal_done;
+                    bool r = sem.try_wait(u);
+                    if (r && u - c.max_diff > max_signal_started && fail.empty())
+                        fail = "try_wait(" + std::to_string(u) + ") succeeded although upper-max_difference exceeds the largest signalled lower limit " + std::to_string(max_signal_started);
+                    if (!r && u - c.max_diff <= done_before && fail.empty())
+                        fail = "try_wait(" + std::to_string(u) + ") failed although lower limit " + std::to_string(done_before) + " had been signalled before the call (max_difference " +
+                            std::to_string(c.max_diff) + "): the window moved backwards";
                 }
                 else if (v > 0)
                 {
@@ -282,6 +303,7 @@ static Outcome run_sliding(Case const& c, Tape& t)
     out.counters["blocked_then_released"] = blocked;
     out.nontrivial = blocked > 0;
     out.tags.push_back("kind:sliding");
+    if (out_of_order) out.tags.push_back("saw:out_of_order_signal");
     if (blocked) out.tags.push_back("saw:blocked_wait_released");
     return out;
 }
